@@ -40,6 +40,18 @@ def render_chain(n, leaf, chain):
             tgt.append("int %s() { SR t = {%s, 0}; return t.u; }" % (nm, e)); e = nm + "()"
         elif link == "fcall":
             tgt.append("int %s() { return idf(%s); }" % (nm, e)); e = nm + "()"
+        elif link == "flhsidx":
+            tgt.append("int %s() { int t[2] = {0, 0}; t[(%s) %% 2] = 1; return t[0]; }" % (nm, e)); e = nm + "()"
+        elif link == "fcompound":
+            tgt.append("int %s() { int t = 0; t += %s; return t; }" % (nm, e)); e = nm + "()"
+        elif link == "fcond":
+            tgt.append("int %s() { if ((%s) > 0) return 1; return 0; }" % (nm, e)); e = nm + "()"
+        elif link == "floop":
+            tgt.append("int %s() { int t = 0; for (t = 0; t < (%s); t++) { } return t; }" % (nm, e)); e = nm + "()"
+        elif link == "fwhile":
+            tgt.append("int %s() { int t = 0; while (t < (%s)) { t++; } return t; }" % (nm, e)); e = nm + "()"
+        else:
+            raise vf.MachineryError("unknown link " + link)
     return g, t, e, in_t
 
 
@@ -73,8 +85,11 @@ def mk_placer():
 def inst_model(cs):
     """template-parameter chain -> model"""
     use = cs["use"]
-    ta = {"name": "TA", "params": "const int[1,2] N", "locations": [{"id": "id0"}], "init": "id0", "decl": "int a[N];" if use == "arrsize" else "",
-          "edges": [{"src": "id0", "dst": "id0", "guard": "N > 0"}] if use == "guard" else []}
+    hops = cs.get("hops", 0)
+    hd = "".join("const int h%d = %s + %d; " % (k + 1, "N" if k == 0 else "h%d" % k, k % 2) for k in range(hops))
+    top_name = "N" if hops == 0 else "h%d" % hops
+    ta = {"name": "TA", "params": "const int[1,2] N", "locations": [{"id": "id0"}], "init": "id0", "decl": hd + ("int a[%s];" % top_name if use == "arrsize" else ""),
+          "edges": [{"src": "id0", "dst": "id0", "guard": "%s > 0" % top_name}] if use == "guard" else []}
     sysl, top = [], "TA"
     for k in range(cs["passes"]):
         sysl.append("P%d(const int[1,2] q%d) = %s(q%d);" % (k + 1, k + 1, top, k + 1)); top = "P%d" % (k + 1)
@@ -132,7 +147,7 @@ def run(tier):
             raise vf.MachineryError("instantiation model failed: %s" % json.dumps(r)[:800])
         msgs = [e["msg"] for e in r["dump"]["doc"]["errors"]]
         accepted = not msgs
-        key = "inst:%d:%s:%s" % (cs["passes"], cs["end"], cs["use"])
+        key = "inst:%d:%s:%s:hops%d" % (cs["passes"], cs["end"], cs["use"], cs.get("hops", 0))
         rep = {"kind": "inst", "case": cs, "model": inst_model(cs), "diagnostics": msgs}
         if not cs["accepted"]:
             nontrivial += 1
